@@ -54,6 +54,11 @@ CLAIMS = {
    design_ref="DESIGN.md section 5 C09, section 8",
    note=COMMON_NOTE + "TCP/DNS/tcpto/timeouts outside the model (a stall is the disconnect it ends in). DATA 5xx/4xx and final 5xx/4xx classes are checked by the oracle on the real client; only MAIL and greeting classes are separate theorems besides K_sound.",
    technique="Coq proof (case analysis of the phase sequence, induction over the recipient loop) + differential tie against a scripted SMTP server and a function harness for report()"),
+ "C19": dict(category="proof",
+   text="Theorems for every file content, maildir and command sequence: RETR sends exactly the rfc_encode of the stored file (final newline added, plus the documented extra blank line) and C05's decoder gives the file back; TOP n k sends the header through the first empty line plus exactly k body lines; the message list never changes during a session; an accepted number names an existing unmarked message (value modulo 2^64, stated); marks change only by a successful DELE or RSET; a refused number has no effect; without QUIT nothing is removed or renamed; QUIT unlinks exactly the marked messages. Tied on every run to the real qmail-pop3d (non-root uid) on generated maildirs x command sequences (exhaustive short sequences, seeded long ones, boundary arguments, CRLF/LF, unterminated last line), byte-for-byte replies and maildir afterwards, with an independent RFC 1939 reference as oracle; root refusal checked.",
+   design_ref="DESIGN.md section 5 C19, section 8",
+   note=COMMON_NOTE + "Known finding pop3:msgno-wraps-2^64 is listed in known_findings.json. qmail-popup (pre-authentication verbs, credentials passed verbatim) is not yet modelled; equal mtimes and STAT's count are outside the property.",
+   technique="Coq proof (line-level encoding lemmas reusing C05's decoder theorem; case analysis of the command dispatcher; induction over the session) + extracted-model differential tie to the real qmail-pop3d"),
 }
 
 REASON_PENDING = "not yet claimed: model/correspondence for this property is still being built (DESIGN.md section 7); no check is registered for it"
